@@ -66,6 +66,13 @@ def check(repo, col, tier):
     col.rule("R-C11-pairing", "stimuli / clamps given through a view stay attached to the rows of that view", 3)
     from . import c08
     c08._pairing(repo, col, "R-C11-pairing")
+    col.rule("R-C11-chain", "every link of a selection chain derives its view from the view it is called on", 8)
+    derived_from_receiver(repo, col, "R-C11-chain")
+    # recording through a view adds exactly (row, state) pairs: another state of a row already recorded is a new recording (shared with C08/C19)
+    from . import c19 as _c19
+    col.rule("R-C11-recs", "recordings are (rec_index, state) pairs; duplicates are judged on both", 2)
+    _c19.recordings_matching(repo, col, "R-C11-recs")
+    _c19.record_dedup(repo, col, "R-C11-recs")
 
 
 def _basestate(repo, col, R="R-C11-basestate"):
@@ -1295,3 +1302,79 @@ def _loc(repo, col):
     col.check(sc_glob and restored, R, fi, "loc selects in global scope and restores the caller's scope",
               "self.scope('global').comp(idxs).scope(orig_scope)", "loc does not select globally / restore the scope of the view it was called on",
               node=fi.node)
+
+
+def derived_from_receiver(repo, col, R):
+    """A link of a selection chain derives its view from the view it is called on: `View(self, ...)` or `self.<selector>(...)`.
+    A link that goes back to the base module (`self.base.select(rows)`, `View(self.base, ...)`) selects the right rows but forgets what
+    the chain has established besides rows -- the scope, and the edges selected so far.  Selectors are found by a fixpoint: methods
+    whose result is a `View(...)`, and methods whose result is the result of a selector."""
+    sel = {}
+    meths = []
+    for cls_ in ("Module", "View", "Network", "Cell", "Branch", "Compartment"):
+        if cls_ in repo.classes:
+            for nm, fi in repo.cls(cls_).methods.items():
+                meths.append((cls_, nm, fi))
+    rets = {}
+    for cls_, nm, fi in meths:
+        try:
+            ex = idx.expander(repo, fi)
+        except Exception:
+            continue
+        rs = [r for r in ex.returns if r is not None]
+        if rs:
+            rets[(cls_, nm)] = (fi, ex, rs)
+
+    def makes_view(t, names):
+        return [x for x in t.walk() if (x.op == "call" and x.name == "View") or (x.op in ("mcall", "attr") and x.name in names and x.args)]
+    names = set()
+    for _ in range(6):
+        new = set(names)
+        for (cls_, nm), (fi, ex, rs) in rets.items():
+            if nm.startswith("__") and nm not in ("__getattr__", "__getitem__", "__iter__", "__next__"):
+                continue
+            for r in rs:
+                top = r
+                while top.op in ("phi", "ifexp"):
+                    top = top.args[-1]
+                if (top.op == "call" and top.name == "View") or (top.op in ("mcall", "attr") and top.name in names) or \
+                        any((a_.op == "call" and a_.name == "View") or (a_.op in ("mcall", "attr") and a_.name in names) for a_ in (r.args if r.op in ("phi", "ifexp") else [])):
+                    new.add(nm)
+        if new == names:
+            break
+        names = new
+    col.info["view_selectors"] = sorted(names)
+    if len(names) < 8:
+        raise AnalysisError(f"only {sorted(names)} recognised as selectors")
+    n = 0
+    for (cls_, nm), (fi, ex, rs) in sorted(rets.items()):
+        if nm not in names or nm == "_update_view":
+            continue
+        made = []
+        for r in rs:
+            made += makes_view(r, names)
+        for s_ in ex.stores:
+            if s_.value is not None:
+                made += [x for x in makes_view(s_.value, names)]
+        seen = set()
+        for x in made:
+            if id(x.node) in seen:
+                continue
+            seen.add(id(x.node))
+            recv = x.args[0]
+            if recv.op == "free":
+                continue
+            spine = [recv]  # the receiver chain only: what the arguments are computed from is another matter
+            while spine[-1].op in ("mcall", "attr", "sub") and spine[-1].args:
+                spine.append(spine[-1].args[0])
+            through_base = any(y.op == "attr" and y.name == "base" and _is_self(y.args[0]) for y in spine)
+            rooted = _is_self(spine[-1])
+            if not rooted:
+                continue
+            n += 1
+            col.check(not through_base, R, fi, f"{cls_}.{nm}: the next view of the chain is derived from the view the method is called on",
+                      "View(self, ...) / self.<selector>(...)",
+                      f"`{x.short(90)}` derives the view from the BASE module: rows apart, the chain's scope and the edges selected so far are lost "
+                      f"(`cell.scope('global').HH.comp(i)` counts locally again; `net.select(edges=[2]).HH` sees every synapse between those compartments)",
+                      node=x.node if x.node is not None else fi.node)
+    col.info["view_derivations_checked"] = n
